@@ -112,6 +112,7 @@ func (ctx Ctx) coqTypeOfType(n ast.Node, t types.Type) coq.Type {
 		if info, ok := ctx.getStructInfo(t); ok {
 			return coq.StructName(info.name)
 		}
+		ctx.dep.addDep(ctx.qualifiedName(t.Obj()))
 		return coq.TypeIdent(ctx.qualifiedName(t.Obj()))
 	case *types.Slice:
 		return coq.SliceType{Value: ctx.coqTypeOfType(n, t.Elem())}
@@ -175,7 +176,11 @@ func (ctx Ctx) coqFuncType(e *ast.FuncType) coq.Type {
 func (ctx Ctx) coqType(e ast.Expr) coq.Type {
 	switch e := e.(type) {
 	case *ast.Ident:
-		ctx.dep.addDep(e.Name)
+		if ctx.isGlobalVar(e) {
+			// (a type parameter or another local name that happens to be
+			// spelled like a top-level declaration is not a use of it)
+			ctx.dep.addDep(e.Name)
+		}
 		// Struct typing is a bit funky.
 		if ctx.isGlobalVar(e) && !ctx.isStruct(e) {
 			return coq.TypeIdent(e.Name)
@@ -345,6 +350,9 @@ func (ctx Ctx) getStructInfo(t types.Type) (structTypeInfo, bool) {
 	if t, ok := t.(*types.Named); ok {
 		name := ctx.qualifiedName(t.Obj())
 		if structType, ok := t.Underlying().(*types.Struct); ok {
+			// every use of the info mentions the struct's descriptor
+			// (struct.load, struct.store, struct.storeF, struct.fieldRef, …)
+			ctx.dep.addDep(name)
 			return structTypeInfo{
 				name:           name,
 				throughPointer: throughPointer,
